@@ -501,7 +501,9 @@ def _unique_obj(a, return_index, return_inverse, return_counts, axis):
   if axis is None:
     rows = [(v,) for v in a.flat]
   else:
-    assert axis == 0 and a.ndim == 2
+    assert axis == 0 and a.ndim >= 2
+    sub_shape = a.shape[1:]
+    a = a.reshape(a.shape[0], -1)          # rows = flattened sub-arrays (lexicographic order, as numpy does)
     rows = [tuple(r) for r in a]
   order = []   # insertion sort with forking comparisons
   for i, r in enumerate(rows):
@@ -529,7 +531,7 @@ def _unique_obj(a, return_index, return_inverse, return_counts, axis):
     for i, o in enumerate(uniq):
       for j in range(a.shape[1]):
         U[i, j] = rows[o][j]
-    U = U.view(SymArr)
+    U = U.reshape((len(uniq),) + tuple(sub_shape)).view(SymArr)
   out = [U]
   if return_index:
     out.append(_np.array(first, dtype=_np.intp))
